@@ -250,6 +250,22 @@ impl PoolMap {
         let mut removed_ids = vec![id.to_owned()];
         removed_ids.extend(self.calc_descendants(id));
 
+        // the removed entries leave the descendant aggregates of every surviving ancestor;
+        // this has to happen while the links still exist
+        let removed_set: HashSet<&ProposalShortId> = removed_ids.iter().collect();
+        for removed_id in &removed_ids {
+            if let Some(removed) = self.get(removed_id).cloned() {
+                for anc_id in self.calc_ancestors(removed_id) {
+                    if !removed_set.contains(&anc_id) {
+                        self.entries.modify_by_id(&anc_id, |e| {
+                            e.inner.sub_descendant_weight(&removed);
+                            e.evict_key = e.inner.as_evict_key();
+                        });
+                    }
+                }
+            }
+        }
+
         // update links state for remove, so that we won't update_descendants_index_key in remove_entry
         for id in &removed_ids {
             self.remove_entry_links(id);
@@ -496,7 +512,8 @@ impl PoolMap {
             }
         }
         // update children
-        if !children.is_empty() {
+        let inserted_above = !children.is_empty();
+        if inserted_above {
             for child in &children {
                 self.links.add_parent(child, tx_short_id.clone());
             }
@@ -507,6 +524,53 @@ impl PoolMap {
         }
         // update ancestor's index key for adding new entry
         self.update_ancestors_index_key(entry, EntryOp::Add);
+        // The entry was put above entries that were already in the pool (a detached transaction
+        // re-added above its pooled children): its descendants also belong to its own aggregates and
+        // to those of its ancestors, and its ancestors to the aggregates of its descendants.
+        if inserted_above {
+            self.recount_around(&tx_short_id);
+        }
+    }
+
+    // Recompute, from the links, the descendant aggregates of `id` and its ancestors
+    // and the ancestor aggregates of its descendants.
+    fn recount_around(&mut self, id: &ProposalShortId) {
+        let mut upper = self.calc_ancestors(id);
+        upper.insert(id.clone());
+        for up_id in upper {
+            let descendants: Vec<TxEntry> = self
+                .calc_descendants(&up_id)
+                .iter()
+                .filter_map(|d| self.get(d).cloned())
+                .collect();
+            self.entries.modify_by_id(&up_id, |e| {
+                e.inner.descendants_count = 1;
+                e.inner.descendants_size = e.inner.size;
+                e.inner.descendants_cycles = e.inner.cycles;
+                e.inner.descendants_fee = e.inner.fee;
+                for d in &descendants {
+                    e.inner.add_descendant_weight(d);
+                }
+                e.evict_key = e.inner.as_evict_key();
+            });
+        }
+        for down_id in self.calc_descendants(id) {
+            let ancestors: Vec<TxEntry> = self
+                .calc_ancestors(&down_id)
+                .iter()
+                .filter_map(|a| self.get(a).cloned())
+                .collect();
+            self.entries.modify_by_id(&down_id, |e| {
+                e.inner.ancestors_count = 1;
+                e.inner.ancestors_size = e.inner.size;
+                e.inner.ancestors_cycles = e.inner.cycles;
+                e.inner.ancestors_fee = e.inner.fee;
+                for a in &ancestors {
+                    e.inner.add_ancestor_weight(a);
+                }
+                e.score = e.inner.as_score_key();
+            });
+        }
     }
 
     // return (ancestors, parents, cell_ref_parents)
